@@ -3,6 +3,8 @@ From Coq Require Import ZArith List Bool.
 From VB Require Import Arith.CompactDefs Arith.CompactProofs Arith.CompactSpec.
 From VB Require Import Arith.U256Defs Arith.U256Proofs.
 From VB Require Import Gen.TextTables Text.TextCommon Text.Base59Defs Text.Base59Proofs Text.Base59Proofs2.
+From VB Require Import Text.HexDefs Text.HexProofs Text.Base58Defs Text.Base58Proofs Text.Base58Proofs3
+  Text.Base58Proofs4 Text.Base58Proofs5 Text.AddressDefs Text.AddressProofs Text.AddressProofs2.
 Import ListNotations.
 Local Open Scope Z_scope.
 
@@ -174,3 +176,92 @@ Theorem C18_base59_table_inverse_2 : forall c, 0 <= c < 128 ->
   lookup b59_indexes c = -1 \/ (0 <= lookup b59_indexes c < 59 /\ char_of_digit (lookup b59_indexes c) = c).
 Proof. exact b59_char_of_index. Qed.
 Print Assumptions C18_base59_table_inverse_2.
+
+(** * base58 *)
+
+Theorem C18_base58_roundtrip : forall bs, bytes bs ->
+  exists s, b58_encode bs = Ok s /\ b58_decode s = Ok bs.
+Proof. exact b58_roundtrip. Qed.
+Print Assumptions C18_base58_roundtrip.
+
+Theorem C18_base58_rejects_foreign_characters : forall s, bytes s ->
+  (exists c, In c s /\ ~ In c b58_alphabet /\ is_space c = false) ->
+  forall v, b58_decode s <> Ok v.
+Proof. exact b58_decode_rejects. Qed.
+Print Assumptions C18_base58_rejects_foreign_characters.
+
+Theorem C18_base58_rejects_inner_space : forall a sp b, is_space sp = true ->
+  (exists x, In x a /\ is_space x = false) -> (exists y, In y b /\ is_space y = false) ->
+  forall v, b58_decode (a ++ sp :: b) <> Ok v.
+Proof. exact b58_decode_rejects_inner_space. Qed.
+Print Assumptions C18_base58_rejects_inner_space.
+
+Theorem C18_base58_canonical_text_reencodes : forall s v, bytes s -> b58_decode s = Ok v ->
+  exists sp1 body sp2,
+    s = sp1 ++ body ++ sp2 /\ all_space sp1 /\ all_space sp2 /\ b58_encode v = Ok body.
+Proof. exact b58_decode_encode. Qed.
+Print Assumptions C18_base58_canonical_text_reencodes.
+
+Theorem C18_base58_decode_never_aborts : forall s, bytes s -> b58_decode s <> Abort.
+Proof. exact b58_decode_never_aborts. Qed.
+Print Assumptions C18_base58_decode_never_aborts.
+
+Theorem C18_base58_table_inverse_1 : forall d, 0 <= d < b58_enc_base -> lookup b58_map (b58_char d) = d.
+Proof. exact b58_map_char. Qed.
+Print Assumptions C18_base58_table_inverse_1.
+
+Theorem C18_base58_table_inverse_2 : forall c, is_byte c -> (lookup b58_map c = -1 <-> ~ In c b58_alphabet).
+Proof. exact b58_map_minus1. Qed.
+Print Assumptions C18_base58_table_inverse_2.
+
+(** * hex *)
+
+Theorem C18_hex_roundtrip : forall bs, bytes bs -> parse_hex (hex_str bs) = bs.
+Proof. exact hex_roundtrip. Qed.
+Print Assumptions C18_hex_roundtrip.
+
+Theorem C18_hex_is_hex : forall bs, bytes bs -> bs <> [] -> is_hex (hex_str bs) = true.
+Proof. exact is_hex_hex_str. Qed.
+Print Assumptions C18_hex_is_hex.
+
+Theorem C18_hex_parse_stops_at_foreign_character : forall bs c rest,
+  bytes bs -> hex_digit_of c = -1 -> is_space c = false ->
+  parse_hex (hex_str bs ++ c :: rest) = bs.
+Proof. exact parse_hex_stops. Qed.
+Print Assumptions C18_hex_parse_stops_at_foreign_character.
+
+Theorem C18_hex_parse_never_overruns : forall s, exists v, parse_hex_mem (c_string s) = Ok v.
+Proof. exact parse_hex_no_overrun. Qed.
+Print Assumptions C18_hex_parse_never_overruns.
+
+Theorem C18_hex_table_inverse : forall d, 0 <= d < 16 -> hex_digit_of (hex_char d) = d.
+Proof. exact hex_digit_of_hex_char. Qed.
+Print Assumptions C18_hex_table_inverse.
+
+(** * address (sha256 abstract; premise: it returns 32 bytes) *)
+
+Theorem C18_address_is_derived : forall sha256 : list Z -> list Z,
+  (forall x, length (sha256 x) = 32%nat /\ bytes (sha256 x)) ->
+  forall k a, addr_from_public_key sha256 k = Ok a ->
+    addr_is_derived_from_public_key sha256 a k = Ok true.
+Proof. exact addr_is_derived. Qed.
+Print Assumptions C18_address_is_derived.
+
+Theorem C18_address_fromString_toString : forall (sha256 : list Z -> list Z) s a,
+  addr_from_string sha256 s = Ok a ->
+    addr_to_string a = s /\ addr_from_string sha256 (addr_to_string a) = Ok a.
+Proof. exact addr_from_to_string. Qed.
+Print Assumptions C18_address_fromString_toString.
+
+Theorem C18_address_derived_parses_back : forall sha256 : list Z -> list Z,
+  (forall x, length (sha256 x) = 32%nat /\ bytes (sha256 x)) ->
+  forall k a, addr_from_public_key sha256 k = Ok a ->
+    addr_from_string sha256 (addr_to_string a) = Ok a.
+Proof. exact addr_from_public_key_valid. Qed.
+Print Assumptions C18_address_derived_parses_back.
+
+Theorem C18_address_fromString_never_aborts : forall sha256 : list Z -> list Z,
+  (forall x, length (sha256 x) = 32%nat /\ bytes (sha256 x)) ->
+  forall s, bytes s -> addr_from_string sha256 s <> Abort.
+Proof. exact addr_from_string_never_aborts. Qed.
+Print Assumptions C18_address_fromString_never_aborts.
